@@ -5,6 +5,26 @@ From ChiaV.Stream Require Import Universe Versioned Codec Json JsonProofs.
 From ChiaV.Gen Require Import StreamTypes.
 Open Scope N_scope.
 
+(* ---- round trip ---- *)
+(* json_ok t: the boolean side condition "no Option whose payload can itself be None (directly nested Option),
+   only 2- and 3-tuples, distinct dict keys" — computed for every translated type below.
+   wf O false t v: v is a well-formed value of type t (valid points, valid UTF-8, lengths < 2^32, ...). *)
+Theorem C20_json_roundtrip : forall O t v,
+  json_ok t = true -> wf O false t v = true ->
+  exists j, to_json t v = Some j /\ from_json O t j = Some v.
+Proof. exact json_roundtrip. Qed.
+
+(* ... hence identical byte encoding and identical digest input (hash) *)
+Theorem C20_json_roundtrip_same_bytes_and_hash : forall O t v,
+  json_ok t = true -> wf O false t v = true ->
+  exists j, to_json t v = Some j /\
+    forall v', from_json O t j = Some v' -> v' = v /\ encode t v' = encode t v /\ digest O t v' = digest O t v.
+Proof. exact json_roundtrip_same_bytes_and_hash. Qed.
+
+(* the side condition holds for every type translated from the Rust source on this run *)
+Theorem C20_json_ok_every_translated_type : forallb (fun p => json_ok (snd p)) stream_types = true.
+Proof. exact json_ok_all. Qed.
+
 (* ---- malformed JSON is rejected, never truncated / wrapped / defaulted ---- *)
 (* a fixed-size byte string of the wrong length *)
 Theorem C20_reject_wrong_byte_length : forall O n h b,
